@@ -585,13 +585,13 @@ func showInJSDepth(env *env, out io.Writer, value any, path *showPath) error {
 		}
 		return err
 	case reflect.Slice:
-		if b, ok := value.([]byte); ok {
-			w := newStringWriter(out)
-			return escapeBytes(w, b, true)
-		}
 		if v.IsNil() {
 			s = "null"
 			break
+		}
+		if b, ok := value.([]byte); ok {
+			w := newStringWriter(out)
+			return escapeBytes(w, b, true)
 		}
 		fallthrough
 	case reflect.Array:
